@@ -2,6 +2,11 @@ use crate::engine::{Failure, PropRun, RunCfg};
 use serde_json::Value;
 
 pub mod c04;
+pub mod c05;
+pub mod c12;
+pub mod c17;
+pub mod c16;
+pub mod c18;
 
 pub struct PropDef {
     pub id: &'static str,
@@ -12,5 +17,10 @@ pub struct PropDef {
 pub fn registry() -> Vec<PropDef> {
     vec![
         PropDef { id: c04::ID, run: c04::run, replay: c04::replay },
+        PropDef { id: c16::ID, run: c16::run, replay: c16::replay },
+        PropDef { id: c18::ID, run: c18::run, replay: c18::replay },
+        PropDef { id: c05::ID, run: c05::run, replay: c05::replay },
+        PropDef { id: c12::ID, run: c12::run, replay: c12::replay },
+        PropDef { id: c17::ID, run: c17::run, replay: c17::replay },
     ]
 }
